@@ -111,6 +111,18 @@ def run(prog, rep):
     check_wrappers(prog, rep)
 
     # ---------------------------------------------------------------- R3.4
+    # the load-result variable of SplitAndSerialize(KeyValue): the bool local that is assigned from the Serialize(...) call
+    result_names = set()
+    for f in prog.funcs.values():
+        if f.pq != 'BitSerializer::KeyValueProxy::SplitAndSerialize' or 'KeyValue<' not in f.id or f.body is None:
+            continue
+        for n in f.walk():
+            if n['k'] == 'BinaryOperator' and n.get('op') == '=':
+                lhs, rhs = strip(n['c'][0]), strip(n['c'][1])
+                if lhs is not None and lhs['k'] == 'DeclRefExpr' and rhs is not None and rhs['k'] == 'CallExpr' and (f.callee(rhs) or {}).get('n') == 'Serialize':
+                    result_names.add(lhs.get('n'))
+    if not result_names:
+        raise AnalysisBroken('R3.4: SplitAndSerialize(KeyValue) no longer assigns a local from the Serialize(...) call')
     n34 = 0
     for f in sorted(prog.funcs.values(), key=lambda x: x.id):
         if f.sym['kind'] != 'lambda' or 'key_value_proxy.h' not in f.file:
@@ -122,7 +134,7 @@ def run(prog, rep):
         n34 += 1
         c = calls[0]
         second = strip(c['c'][3])
-        ok = second is not None and second['k'] in ('MemberExpr', 'DeclRefExpr') and (second.get('m') or second.get('n')) == 'result'
+        ok = second is not None and second['k'] in ('MemberExpr', 'DeclRefExpr') and (second.get('m') or second.get('n')) in result_names
         site = 'validator call|' + f.id[-70:]
         if ok:
             rep.ok('R3.4', site, sample={'lambda': f.loc(), 'second_argument': 'result'} if n34 < 3 else None, nontrivial=n34 < 50)
@@ -134,11 +146,11 @@ def run(prog, rep):
         # 'result' is assigned from the Serialize call
         has = False
         for n in live_walk(f):
-            if n['k'] == 'BinaryOperator' and n.get('op') == '=' and (strip(n['c'][0]) or {}).get('n') == 'result':
+            if n['k'] == 'BinaryOperator' and n.get('op') == '=' and (strip(n['c'][0]) or {}).get('n') in result_names:
                 rhs = strip(n['c'][1])
                 if rhs is not None and rhs['k'] == 'CallExpr' and (f.callee(rhs) or {}).get('n') == 'Serialize':
                     has = True
-        if any(d['n'] == 'result' for n in f.walk() if n['k'] == 'DeclStmt' for d in n.get('decls', ())):
+        if any(d['n'] in result_names for n in f.walk() if n['k'] == 'DeclStmt' for d in n.get('decls', ())):
             rep.touch(f)
             if has:
                 rep.ok('R3.4', 'result := Serialize(...)|' + f.sym.get('targs', '')[:60], nontrivial=False)
@@ -294,7 +306,7 @@ def is_store_to(f, n, tgt):
     return False
 
 
-def check_object_scope(prog, rep):
+def check_object_scope(prog, rep, rule='R3.5'):
     """Item accounting of the MsgPack object scope. Along every normal path:
          items consumed from the reader (keys + values) - 2 * (index increments + child scopes handed over) == pending_after - pending_before
        where 'pending' = a key has been read and its value not yet consumed (mCurrentKey set). The pending state is tracked along the path:
@@ -441,12 +453,12 @@ def check_object_scope(prog, rep):
                 bad[(T, I, R, pre, post, ret)] = tr
         site = '%s|%s' % (f.pq, f.sym.get('targs', '')[:40])
         if not bad:
-            rep.ok('R3.5', site, sample={'method': f.pq, 'path_summaries(items,increments,resets,pending_before,pending_after)': sorted(map(str, d))[:6]}
+            rep.ok(rule, site, sample={'method': f.pq, 'path_summaries(items,increments,resets,pending_before,pending_after)': sorted(map(str, d))[:6]}
                    if f.name in ('FindValueByKey', 'VisitKeys') else None, nontrivial=any(k[:3] != (0, 0, 0) for k in d))
         else:
             (T, I, R, pre, post, ret), tr = sorted(bad.items(), key=str)[0]
             what = ('consumes %d item(s) (keys+values) but accounts for %d pair(s) with pending key %s -> %s' % (T, I, pre, post)) if R == 0 else \
                 'resets mIndex without repositioning the reader to the first member (or vice versa)'
-            rep.finding('R3.5', '%s|items=%d,pairs=%d,reset=%d' % (f.pq, T, I, R), f.loc(),
+            rep.finding(rule, '%s|items=%d,pairs=%d,reset=%d' % (f.pq, T, I, R), f.loc(),
                         '%s: a normal path %s: the member cursor and the reader position get out of step, later keys are looked up at wrong offsets'
                         % (f.pq, what), {'path_events': tr, 'instantiation': f.id}, func=f.id)
